@@ -624,6 +624,12 @@ pub fn run_c05_c17(prop: &'static str, tier: Tier) -> ! {
         many_frames(&mut acc, &report, tier.pick(300, 1000));
         wide_alphabet(&mut acc, prop, report.clone(), tier.pick(4, 5), &ctx);
         foreign_escapes(&mut acc, &report);
+        if prop == "C05" {
+            // failures of the allocator behind a Vec buffer: an error value, not an abort
+            for v in crate::e2::allocfail_findings(&report, &mut acc.counts) {
+                acc.tally.add(v);
+            }
+        }
         acc.counts.require(&["frames delivered", "frames rejected", "finalize calls", "reset calls", "transitions after a long run"]);
     }
     if wrap_phase {
